@@ -2,6 +2,8 @@ import GridVerif.Model.Proto
 import GridVerif.Model.Elem
 import GridVerif.Model.Harmonics
 import GridVerif.Gen.Harmonics
+import GridVerif.Gen.HarmonicsScipy
+import GridVerif.Model.HarmonicsSciPy
 
 namespace GridVerif.Driver.C08
 open GridVerif.Proto GridVerif.Harmonics
@@ -17,6 +19,13 @@ open GridVerif.Proto GridVerif.Harmonics
   model is proved over ℝ only: `r == 0.0` vs `0 < r`; the other generated routines are proved equal for every scalar type)
 * `C08.sphToCart r θ φ cx cy cz` ↦ `ok x y z`
 * `C08.convDeriv dr dθ dφ r θ φ` ↦ `ok 3 gx gy gz`
+* `C08.genScipy any L θ φ` ↦ `ok (L+1)² rows…` by the *generated* `Gen.HarmonicsScipy.ylm_scipy` (translation of
+  `generate_real_spherical_harmonics_scipy`; `any` = `0`/`1`, the value of `np.any(outside)` over the caller's whole array;
+  `np.empty` is filled with NaN, so a row the loop does not write shows)
+* `C08.genScipyFits any L θ φ` ↦ `ok 0|1`: the shape requirements of that text
+* `C08.sphHarmYAll n m φ θ` ↦ `ok (n+1)(2m+1) re im …`: the contract for `scipy.special.sph_harm_y_all`, row-major
+* `C08.genYlm L θ φ`, `C08.genSolid L r θ φ`, `C08.genConvDeriv dr dθ dφ r θ φ` ↦ the generated `Gen.Harmonics.ylm` (unbound
+  `factorial` = NaN), `solid`, `convDeriv`
 * `C08.rowIndex l m` ↦ `ok index`;  `C08.lmOrder L` ↦ `ok n l₀ m₀ l₁ m₁ …`. -/
 def handle : List String → Option String
   | ["C08.ylmCode", L, t, p] => do
@@ -51,6 +60,26 @@ def handle : List String → Option String
     let dr ← pFloat dr; let dt ← pFloat dt; let dp ← pFloat dp
     let r ← pFloat r; let t ← pFloat t; let p ← pFloat p
     pure ("ok " ++ sFloats (convDeriv dr dt dp r t p))
+  | ["C08.genScipy", any, L, t, p] => do
+    let any ← pNat any; let L ← pNat L; let t ← pFloat t; let p ← pFloat p
+    pure ("ok " ++ sFloats (Gen.HarmonicsScipy.ylm_scipy (0.0 / 0.0) (any != 0) L t p))
+  | ["C08.genScipyFits", any, L, t, p] => do
+    let any ← pNat any; let L ← pNat L; let t ← pFloat t; let p ← pFloat p
+    pure (if Gen.HarmonicsScipy.ylm_scipy_fits (0.0 / 0.0) (any != 0) L t p then "ok 1" else "ok 0")
+  | ["C08.sphHarmYAll", n, m, p, t] => do
+    let n ← pNat n; let m ← pNat m; let p ← pFloat p; let t ← pFloat t
+    let tbl := SciPyBase.sph_harm_y_all n m p t
+    pure ("ok " ++ sFloats (tbl.flatMap (fun row => row.flatMap (fun z => [z.1, z.2]))))
+  | ["C08.genYlm", L, t, p] => do
+    let L ← pNat L; let t ← pFloat t; let p ← pFloat p
+    pure ("ok " ++ sFloats (Gen.Harmonics.ylm (0.0 / 0.0) L t p))
+  | ["C08.genSolid", L, r, t, p] => do
+    let L ← pNat L; let r ← pFloat r; let t ← pFloat t; let p ← pFloat p
+    pure ("ok " ++ sFloats (Gen.Harmonics.solid (0.0 / 0.0) L r t p))
+  | ["C08.genConvDeriv", dr, dt, dp, r, t, p] => do
+    let dr ← pFloat dr; let dt ← pFloat dt; let dp ← pFloat dp
+    let r ← pFloat r; let t ← pFloat t; let p ← pFloat p
+    pure ("ok " ++ sFloats (Gen.Harmonics.convDeriv dr dt dp r t p))
   | ["C08.rowIndex", l, m] => do
     let l ← pNat l; let m ← pInt m
     if m.natAbs ≤ l then pure s!"ok {rowIndex l m}" else pure "index-error"
